@@ -47,5 +47,15 @@ CHECKS = {
                  "registration; stored bytes written only in first-send/own-timer/resume contexts; delay derives from the request's interval "
                  "object created with the configured initial timeout. The two timing clauses are NOT decided (numeric, random jitter).",
          "note": BASE_NOTE + " Timing clauses (minimum gap, non-shrinking gaps) are outside the family.", "technique": "call-graph resolution + per-path event pairing + constant propagation of the DUP argument over calling contexts"},
+ "C09": {"text": "Who-may and ordering rules for the QoS 2 sender on every abstract path: PUBREL created/inserted only on the hit path of the PUBREC "
+                 "handler; timer cancellation and removal from the publish window precede the first PUBREL write; element classes of the three "
+                 "publisher registries; every retry callback armed with entries of its own registries only; release window emptied only by "
+                 "PUBCOMP/purge, publish window only by PUBACK/PUBREC/purge and filled only from the queue.",
+         "note": BASE_NOTE, "technique": "who-may-do table over trigger contexts + precedence (dominance) of events on paths"},
+ "C10": {"text": "Window/queue discipline from the shape of the code on every path: window insertions only inside a refill loop bounded by a "
+                 "re-evaluated len(window) < window test (or a counted loop in which every iteration occupies a slot: loop-budget rule); queue "
+                 "touched only by append in publish() and popleft in the refill; each popped entry written exactly once; publish() never "
+                 "window-rejected; refill triggered after append and after PUBACK/PUBCOMP removal.",
+         "note": BASE_NOTE, "technique": "loop-idiom recognition with bound re-evaluation check + container-discipline (allowed operations) table"},
 }
 NOT_APPLICABLE = {}
